@@ -9,7 +9,7 @@ RUN=/tmp/seedrun/verif
 if [ ! -d "$RUN" ]; then
   mkdir -p /tmp/seedrun && git -C /verif worktree add -q --detach "$RUN" HEAD
 else
-  git -C "$RUN" checkout -q --detach "$(git -C /verif rev-parse HEAD)" 2>/dev/null
+  git -C "$RUN" reset -q --hard && git -C "$RUN" checkout -q -f --detach "$(git -C /verif rev-parse HEAD)"
 fi
 sed -i "s#path = \"[^\"]*\"#path = \"$WT\"#" "$RUN/harness/Cargo.toml"
 git -C "$WT" checkout -q -- . && git -C "$WT" apply "$PATCH" || { echo "patch does not apply"; exit 2; }
